@@ -15,6 +15,16 @@ CLAIMED = {
     text="Unbounded proof: all field values, symbolic burst length and contents (array theory, skolemised element equality), every modulation, NOPE yes/no, versions 0/1, legacy on/off; the four translation tables checked for all 256 entries.",
     note="Trusted: PyVC models of struct.pack/unpack, bytearray/array/memoryview/translate, slicing (listed in evidence); soft bits in [-127,127] as the statement quantifies; validate used through its C13 contract.",
     design="9/C01"),
+ "C10": dict(
+    technique="contract-based deductive verification: PyVC VCs from the live fake_trx.py/data_msg.py/gsm_shared.py/rand_burst_gen.py; functional post-conditions of trans, toa256/rssi/ci, TrainingSeqGMSK.pick, _handle_data_msg_v1, handle_data_msg, gen_nb/sb/ab; callers use callee contracts; z3",
+    text="Unbounded proof over all burst contents (symbolic 148/444-element sequences), all sender/recipient settings (symbolic ints), both header versions; pick's 25 outcomes and every generator/training-sequence pair enumerated completely.",
+    note="Trusted: PyVC builtin models; random.randint returns a value in [a,b]; thresholds >= 0 (negative ones are C14's concern); training-sequence bit patterns taken as data.",
+    design="9/C10"),
+ "C18": dict(
+    technique="contract-based deductive verification: PyVC VCs from the live fake_trx.py/ctrl_if_trx.py; contracts of sim_burst_drop, handle_data_msg (suppressed case), FAKE_DROP/RFMUTE branches; inductive counter lemma over the contract; z3",
+    text="Unbounded proof: symbolic n, period, frame numbers, versions, mute flags; the history quantifier is discharged by the class invariant + the inductive counter lemma.",
+    note="Trusted: PyVC builtin models; token model of TRXC arguments (decimal literal <-> integer); send_msg used through its C13 contract; sender-side mute clause proved in C02.",
+    design="9/C18"),
 }
 NOT_YET = "check not built yet in this session (design in DESIGN.md section 9); will be claimed when its obligations are discharged"
 
